@@ -51,6 +51,24 @@ mod run {
     crate::run1!(d_across_vs_local, KV, Row);
     crate::run1!(d_first_tick, KV, Row);
     crate::run1!(d_snapshot_total, KV, Row);
+    crate::run1!(f_cross_first, KV, Row);
+    crate::run1!(f_cross_const, KV, Row);
+    crate::run1!(f_cross_none, KV, Row);
+    crate::run1!(f_zip_count_first, KV, Row);
+    crate::run1!(f_zip_count_const, KV, Row);
+    crate::run1!(f_zip_max_first, KV, Row);
+    crate::run1!(f_zip_const_first, KV, Row);
+    crate::run1!(f_first_zip_count, KV, Row);
+    crate::run1!(f_filter_if_first, KV, Row);
+    crate::run1!(f_filter_if_some_first, KV, Row);
+    crate::run1!(f_filter_if_none_first, KV, Row);
+    crate::run1!(f_count_filter_if_some, KV, Row);
+    crate::run1!(f_chain_first, KV, Row);
+    crate::run1!(f_or_first, KV, Row);
+    crate::run1!(f_or_max_first, KV, Row);
+    crate::run1!(f_unwrap_cross, KV, Row);
+    crate::run1!(f_join_first, KV, Row);
+    crate::run1!(f_anti_first, KV, Row);
 }
 
 enum Runner {
@@ -311,6 +329,76 @@ fn m_snapshot_total(h: &[TickIn]) -> Vec<(usize, Row)> {
     vec![(0, vec![all_vals(h).len() as i64, last(h).0.len() as i64])]
 }
 
+// tick-level sources used directly as operands: a first-tick value exists in tick 0 only
+fn is_first(h: &[TickIn]) -> bool {
+    h.len() == 1
+}
+fn m_f_cross_first(h: &[TickIn]) -> Vec<(usize, Row)> {
+    if is_first(h) { seq(va(last(h)).into_iter().map(|x| vec![x, 7]).collect()) } else { vec![] }
+}
+fn m_f_cross_const(h: &[TickIn]) -> Vec<(usize, Row)> {
+    seq(va(last(h)).into_iter().map(|x| vec![x, 5]).collect())
+}
+fn m_f_cross_none(_h: &[TickIn]) -> Vec<(usize, Row)> {
+    vec![]
+}
+fn m_f_zip_count_first(h: &[TickIn]) -> Vec<(usize, Row)> {
+    if is_first(h) { vec![(0, vec![last(h).0.len() as i64, 7])] } else { vec![] }
+}
+fn m_f_zip_count_const(h: &[TickIn]) -> Vec<(usize, Row)> {
+    vec![(0, vec![last(h).0.len() as i64, 5])]
+}
+fn m_f_zip_max_first(h: &[TickIn]) -> Vec<(usize, Row)> {
+    match va(last(h)).into_iter().max() {
+        Some(m) if is_first(h) => vec![(0, vec![m, 7])],
+        _ => vec![],
+    }
+}
+fn m_f_zip_const_first(h: &[TickIn]) -> Vec<(usize, Row)> {
+    if is_first(h) { vec![(0, vec![5, 7, last(h).0.len() as i64])] } else { vec![] }
+}
+fn m_f_first_zip_count(h: &[TickIn]) -> Vec<(usize, Row)> {
+    if is_first(h) { vec![(0, vec![7, last(h).0.len() as i64])] } else { vec![] }
+}
+fn m_f_pass_first_only(h: &[TickIn]) -> Vec<(usize, Row)> {
+    if is_first(h) { each(va(last(h))) } else { vec![] }
+}
+fn m_f_pass_after_first(h: &[TickIn]) -> Vec<(usize, Row)> {
+    if is_first(h) { vec![] } else { each(va(last(h))) }
+}
+fn m_f_count_filter_if_some(h: &[TickIn]) -> Vec<(usize, Row)> {
+    if is_first(h) { one(last(h).0.len() as i64) } else { vec![] }
+}
+fn m_f_chain_first(h: &[TickIn]) -> Vec<(usize, Row)> {
+    let mut xs = if is_first(h) { vec![7] } else { vec![] };
+    xs.extend(va(last(h)));
+    each(xs)
+}
+fn m_f_or_first(h: &[TickIn]) -> Vec<(usize, Row)> {
+    if is_first(h) { one(7) } else { opt(va(last(h)).into_iter().max()) }
+}
+fn m_f_or_max_first(h: &[TickIn]) -> Vec<(usize, Row)> {
+    match va(last(h)).into_iter().max() {
+        Some(m) => one(m),
+        None if is_first(h) => one(7),
+        None => vec![],
+    }
+}
+fn m_f_unwrap_cross(h: &[TickIn]) -> Vec<(usize, Row)> {
+    let f = if is_first(h) { 7 } else { 1 };
+    seq(va(last(h)).into_iter().map(|x| vec![x, f]).collect())
+}
+fn m_f_join_first(h: &[TickIn]) -> Vec<(usize, Row)> {
+    if is_first(h) {
+        seq(last(h).0.iter().filter(|p| p.0 == 0).map(|p| vec![p.0, p.1, 7]).collect())
+    } else {
+        vec![]
+    }
+}
+fn m_f_anti_first(h: &[TickIn]) -> Vec<(usize, Row)> {
+    seq(last(h).0.iter().filter(|p| !(is_first(h) && p.0 == 0)).map(|p| vec![p.0, p.1]).collect())
+}
+
 macro_rules! f1 {
     ($name:ident, $model:ident, $local:expr, [$($op:literal),*]) => {
         Flow { name: stringify!($name), run: Runner::One(run::$name), model: $model, local: $local, ops: &[$($op),*] }
@@ -364,6 +452,24 @@ fn flows() -> Vec<Flow> {
         f1!(d_across_vs_local, m_across_vs_local, false, ["across_ticks", "count"]),
         f1!(d_first_tick, m_first_tick, false, ["first_tick"]),
         f1!(d_snapshot_total, m_snapshot_total, false, ["snapshot"]),
+        f1!(f_cross_first, m_f_cross_first, false, ["first_tick_source", "cross_singleton"]),
+        f1!(f_cross_const, m_f_cross_const, true, ["tick_singleton_source", "cross_singleton"]),
+        f1!(f_cross_none, m_f_cross_none, true, ["tick_none_source", "cross_singleton"]),
+        f1!(f_zip_count_first, m_f_zip_count_first, false, ["first_tick_source", "zip"]),
+        f1!(f_zip_count_const, m_f_zip_count_const, true, ["tick_singleton_source", "zip"]),
+        f1!(f_zip_max_first, m_f_zip_max_first, false, ["first_tick_source", "zip"]),
+        f1!(f_zip_const_first, m_f_zip_const_first, false, ["first_tick_source", "tick_singleton_source", "zip"]),
+        f1!(f_first_zip_count, m_f_first_zip_count, false, ["first_tick_source", "zip"]),
+        f1!(f_filter_if_first, m_f_pass_first_only, false, ["first_tick_source", "filter_if"]),
+        f1!(f_filter_if_some_first, m_f_pass_first_only, false, ["first_tick_source", "filter_if"]),
+        f1!(f_filter_if_none_first, m_f_pass_after_first, false, ["first_tick_source", "filter_if"]),
+        f1!(f_count_filter_if_some, m_f_count_filter_if_some, false, ["first_tick_source", "filter_if"]),
+        f1!(f_chain_first, m_f_chain_first, false, ["first_tick_source", "chain"]),
+        f1!(f_or_first, m_f_or_first, false, ["first_tick_source", "or"]),
+        f1!(f_or_max_first, m_f_or_max_first, false, ["first_tick_source", "or"]),
+        f1!(f_unwrap_cross, m_f_unwrap_cross, false, ["first_tick_source", "tick_singleton_source", "cross_singleton"]),
+        f1!(f_join_first, m_f_join_first, false, ["first_tick_source", "join"]),
+        f1!(f_anti_first, m_f_anti_first, false, ["first_tick_source", "anti_join"]),
     ]
 }
 
@@ -602,13 +708,15 @@ pub fn run(args: &Args) {
     }
     rep.require(rep.counter("isolation_reruns") >= 10_000, "too few isolation re-runs");
     rep.finish(
-        "Corpus of 40 Hydro tick programs compiled by generate_embedded (production DFIR codegen), each driven \
+        "Corpus of 58 Hydro tick programs compiled by generate_embedded (production DFIR codegen), each driven \
          tick by tick with harness-chosen batches: (A) every 3-tick (thorough: also every 4-tick) history over the 13 batches \
          of length <= 2 from {(0,1),(0,2),(1,1)} for one-input flows, every 2-tick history over pairs of those batches for \
          two-input flows; (B) random histories of 2-7 ticks, batches \
          of <= 5 items, 1-4 keys, 2-7 values, 20% empty ticks; 4 empty ticks appended. Per tick the observed \
          rows are compared with plain-Rust batch semantics (cross-tick reference for defer_tick / tick cycles / \
-         across_ticks / first-tick / snapshot flows); tick-local flows are re-run on each batch in isolation. \
+         across_ticks / snapshot flows and for flows that consume a tick-level source - optional_first_tick, \
+         tick.singleton, tick.none - directly as the singleton side of cross_singleton / zip / filter_if / or / \
+         chain / join / anti_join: a first-tick value exists in tick 0 only); tick-local flows are re-run on each batch in isolation. \
          Non-trivial = at least two ticks received a non-empty chunk.",
         true,
     );
